@@ -59,22 +59,12 @@ def run(F, rep):
     rep.check(bool(uses) and not bad, 'C20.N1', 'marking-loop|variable-null-tested', am.where(v0), 'externalVariable->variable() is used at line(s) %s without a null test' % sorted({c.get('l') for c in bad}), '%d uses after the null test' % len(uses))
 
     # ------------------------------------------------------------------ P
-    rep.rule('C20.P1', 'inside the marking loop every user-supplied dependency is translated by internalVariable(dependency)->mVariable (its primary variable) before it is stored')
+    rep.rule('C20.P1', 'external variables are grouped by the primary variable of their equivalence class. (Until repair be580a6 this rule also demanded that every declared dependency be translated to its primary variable when it is '
+                       'STORED; the dependencies are now resolved by class where they are USED - rule C20.D3 - so how they are stored no longer matters, and demanding it would report a change that leaves the behaviour unchanged: seed C20-1.)')
     from engines import element_visits
     loops = list(element_visits(am, 'externalVariable->dependencies()'))
     if not loops:
         raise AnalysisBroken('marking loop over externalVariable->dependencies() vanished')
-    lv_d, lv_body, _site = loops[0]
-    for x in walk(lv_body):
-        if x.get('k') == 'Ref' and x.get('d') == lv_d:
-            p = am.parent(x)
-            while p is not None and p.get('k') in ('Construct', 'Cast'):
-                p = am.parent(p)
-            ok = p is not None and p.get('k') == 'Call' and p.get('fn') == 'internalVariable'
-            stored = next((a for a in am.ancestors(x) if a.get('k') == 'Call' and a.get('fn') in ('push_back', 'emplace_back', 'insert')), None)
-            okm = ok and stored is not None and any(m.get('k') == 'Member' and m.get('n') == 'mVariable' for m in walk(stored))
-            rep.check(okm, 'C20.P1', 'dependency|%s' % render(stored if stored is not None else am.parent(x))[:60], am.where(x),
-                      'a dependency given by the user is stored as is: if it is a non-primary member of its equivalence class the dependency is silently lost and the callback runs before the value it needs', 'stored as internalVariable(dependency)->mVariable')
     key_ix = [c for c in am.walk() if c.get('k') == 'Call' and c.get('opc') == '[]' and render(c['c'][0]) == 'primaryExternalVariables']
     rep.check(bool(key_ix) and all(render(c['c'][1]).endswith('->mVariable') for c in key_ix), 'C20.P1', 'primary-key', am.where(), 'external variables are not grouped by their primary variable', 'grouped by internalVariable->mVariable')
 
@@ -264,8 +254,8 @@ def run(F, rep):
     am20 = F.fn1('Analyser::AnalyserImpl::analyseModel')
     n_d1 = 0
     for L in am20.walk():
-        if L.get('k') != 'RangeFor' or 'ependenc' not in render(role(L, 'range')):
-            continue
+        if L.get('k') != 'RangeFor':
+            continue      # every loop of analyseModel whose body looks its element up in a local map (whatever the locals are called)
         lv = L['c'][0].get('d')
         for sub in walk(role(L, 'body')):
             if sub.get('k') == 'Call' and (sub.get('opc') == '[]' or sub.get('fn') in ('at', 'find')) and sub.get('c') and sub['c'][0].get('k') == 'Ref' and sub['c'][0].get('dk') == 'local' \
@@ -282,23 +272,52 @@ def run(F, rep):
                        'component of the equation that computes it (setVariable in AnalyserInternalEquation::check): wherever those recorded variables are read they are resolved again through internalVariable(...) before being '
                        'looked up - a stale representative finds no equation, the dependency is dropped and the callback is called before the variable it depends on has been computed')
     n_d3 = 0
+    from engines import is_write_context as _iw20
+
+    def _resolved(g_, node):
+        return any(a_.get('k') == 'Call' and a_.get('fn') == 'internalVariable' for a_ in g_.ancestors(node))
     for g_ in F.funcs.values():
         if not g_.file.endswith('/analyser.cpp'):
             continue
-        for L in g_.walk():
-            if L.get('k') != 'RangeFor':
+        for m_ in g_.walk():
+            if not (m_.get('k') == 'Member' and (m_.get('q') or '') == 'libcellml::AnalyserInternalVariable::mDependencies'):
                 continue
-            rng = role(L, 'range')
-            if not any(m_.get('k') == 'Member' and (m_.get('q') or '') == 'libcellml::AnalyserInternalVariable::mDependencies' for m_ in walk(rng)):
+            par = g_.parent(m_)
+            while par is not None and par.get('k') in ('Paren', 'Cast'):
+                par = g_.parent(par)
+            reads_el = par is not None and par.get('k') == 'Call' and (par.get('opc') == '[]' or par.get('fn') in ('at', 'front', 'back'))
+            if _iw20(g_, m_) and not reads_el:
                 continue
-            lv = L['c'][0].get('d')
-            for r_ in walk(role(L, 'body')):
-                if r_.get('k') == 'Ref' and r_.get('d') == lv:
-                    n_d3 += 1
-                    via = any(a_.get('k') == 'Call' and a_.get('fn') == 'internalVariable' for a_ in g_.ancestors(r_))
-                    rep.check(via, 'C20.D3', '%s|%s@%s' % (g_.short.split('::')[-1], render(g_.parent(r_) or r_)[:40], r_.get('l')), g_.where(r_),
-                              '%s uses the recorded dependency `%s` as it is (`%s`): after the analysis the class may be represented by another variable (the one in the component of its equation), so the look-up by this pointer fails' % (
-                                  g_.short, L['c'][0].get('n') or 'dependency', render(g_.parent(r_) or r_)[:60]), 'resolved again through internalVariable()')
+            elems = []      # nodes that denote ONE recorded variable
+            bulk = None
+            if par is not None and par.get('k') == 'RangeFor' and any(x is m_ for x in walk(role(par, 'range'))):
+                lv = par['c'][0].get('d')
+                elems = [r_ for r_ in walk(role(par, 'body')) if r_.get('k') == 'Ref' and r_.get('d') == lv]
+            elif reads_el:
+                # the element itself, or - when it initialises a local (reference) - every use of that local
+                holder = next((a_ for a_ in g_.ancestors(par) if a_.get('k') == 'Var'), None)
+                through = holder is not None and all(a_.get('k') in ('Cast', 'Temp', 'Bind', 'Paren', 'Construct') for a_ in g_.ancestors(par) if a_.get('i') != holder.get('i') and any(x is a_ for x in walk(holder)))
+                elems = [r_ for r_ in g_.walk() if r_.get('k') == 'Ref' and r_.get('d') == holder.get('d')] if through else [par]
+            elif par is not None and par.get('k') == 'Call' and par.get('fn') in ('size', 'empty'):
+                continue
+            elif par is not None and par.get('k') == 'Call' and par.get('fn') in ('begin', 'end', 'cbegin', 'cend'):
+                hdr = next((a_ for a_ in g_.ancestors(par) if a_.get('k') == 'For' and any(x is par for h_ in (role(a_, 'init'), role(a_, 'cond')) if h_ is not None for x in walk(h_))), None)
+                if hdr is None:
+                    bulk = par
+                else:
+                    its = [v_.get('d') for v_ in walk(role(hdr, 'init') or {}) if v_.get('k') == 'Var']
+                    elems = [u_ for u_ in walk(role(hdr, 'body')) if u_.get('k') in ('Un', 'Call') and (u_.get('op') == '*' or u_.get('opc') in ('*', '->')) and u_.get('c') and u_['c'][0].get('k') == 'Ref' and u_['c'][0].get('d') in its]
+            else:
+                bulk = m_
+            if bulk is not None:
+                n_d3 += 1
+                rep.fail('C20.D3', '%s|%s@%s' % (g_.short.split('::')[-1], render(g_.parent(bulk) or bulk)[:40], bulk.get('l')), g_.where(bulk),
+                         '%s copies the recorded dependencies as they are (`%s`): after the analysis a class may be represented by another variable, so look-ups by these pointers fail' % (g_.short, render(g_.parent(bulk) or bulk)[:60]))
+            for r_ in elems:
+                n_d3 += 1
+                rep.check(_resolved(g_, r_), 'C20.D3', '%s|%s@%s' % (g_.short.split('::')[-1], render(g_.parent(r_) or r_)[:40], r_.get('l')), g_.where(r_),
+                          '%s uses a recorded dependency as it is (`%s`): after the analysis the class may be represented by another variable (the one in the component of its equation), so the look-up by this pointer fails' % (
+                              g_.short, render(g_.parent(r_) or r_)[:60]), 'resolved again through internalVariable()')
     if n_d3 < 1:
         raise AnalysisBroken('C20.D3: no read of AnalyserInternalVariable::mDependencies found in analyser.cpp')
     rep.rule('C20.D2', 'AnalyserEquationImpl::cleanUpDependencies removes the empty dependencies of EVERY equation: the erase is unconditional (external equations have no AST, their declared dependencies on constants still have to go, '
